@@ -181,6 +181,14 @@ func libStr(maxLen int, seed int64, nrand int) {
 			continue // explode on multi-byte characters is outside the model (stated in DESIGN)
 		}
 		one(s, p)
+		// Length is the number of BYTES (Go's len), also for multi-byte and invalid UTF-8
+		call([]string{"Length", sxStr(s)}, strconv.Itoa(fstrings.Length(s)))
+		call([]string{"IsEmpty", sxStr(s)}, sxBool(fstrings.IsEmpty(s)))
+		if i < 8 {
+			u := []string{"café", "x→y", "こんにちは", "\xff\xfe", "a\x00b", "é", "\xc3", "𝄞 clef"}[i]
+			call([]string{"Length", sxStr(u)}, strconv.Itoa(fstrings.Length(u)))
+			call([]string{"IsNotEmpty", sxStr(u)}, sxBool(fstrings.IsNotEmpty(u)))
+		}
 		k := r.Intn(5)
 		var parts []string
 		args := []string{"Concat", sxStr(p)}
